@@ -37,6 +37,13 @@ def run(ctx):
     for res in run_workers(ctx, "c07", "record", pl):
         traces += res["traces"]
     cross_compare(traces)
+    # the torch backend (forward / rejection / likelihood-weighted sampling have their own tensor code paths): a third of the instances
+    pt = [(0, {"insts": ch[:1], "seed": ctx.seed * 100 + 50 + j, "tid0": 500000 + j * 1000, "n": 200, "torch": True})
+          for j, ch in enumerate(chunks(insts, 8)) if ch]
+    for res in run_workers(ctx, "c07", "record", pt, backend="torch"):
+        for t in res["traces"]:
+            t["backend"] = "torch"
+        traces += res["traces"]
     validate(ctx, traces)
 
 
@@ -75,6 +82,8 @@ def validate(ctx, traces):
         api = {"kernels": e.get("method", ""), "frame": e.get("method", ""), "freq": e.get("method", ""), "gibbs": "GibbsSampling",
                "repro": e.get("method", ""), "xrepro": e.get("method", ""), "partial": e.get("method", ""), "missing": e.get("method", ""), "sweep": "GibbsSampling"}.get(e["ev"], e["ev"])
         feat = {"has_latents": bool(t["inst"]["latents"]), "kind": t["inst"]["kind"]}
+        if t.get("backend"):
+            feat["backend"] = t["backend"]
         node = e.get("node") or e.get("var")
         if node and set(t.get("colliding", [])) & (set(t["inst"]["parents"].get(node, [])) if e["ev"] != "gibbs" else set(t["inst"]["nodes"])):
             feat["int_state_names_collide_with_state_numbers"] = True       # ... of a parent of the sampled node (Gibbs: of any variable)
@@ -121,7 +130,10 @@ def selftest(ctx):
 
 
 # =========================================================================== worker side
-def _rat(x, D=10 ** 6):
+def _rat(x, D=None):
+    # the torch backend carries float32 values (relative error ~1e-7): snap to denominators <= 4000 there (fractions with such
+    # denominators are >= 6e-8 apart); the recorder does not emit events whose exact values may have larger denominators under torch
+    D = D or (10 ** 6 if os.environ.get("VERIF_BACKEND", "numpy") == "numpy" else 4000)
     f = Fraction(float(x)).limit_denominator(D)
     return [f.numerator, f.denominator]
 
@@ -314,7 +326,7 @@ def record(payload):
                         events.append({"ev": "raised", "method": "simulate", "exc": "model changed by simulate()"})
                 calls.clear()
                 # Gibbs transition kernels (strictly positive tables only: the full conditional must be defined everywhere)
-                if inst["kind"] != "zeros" and len(inst["nodes"]) >= 2:
+                if inst["kind"] != "zeros" and len(inst["nodes"]) >= 2 and not payload.get("torch"):
                     gs = GibbsSampling(model)
                     order = [conc.inv[v] for v in gs.variables]
                     for var in gs.variables:
